@@ -23,7 +23,7 @@ for f in sorted(glob.glob(os.path.join(VERIF, "seeded", "*", "meta.json"))):
     nblind += 1 if sm.get("blind") else 0
     rows.append("| %s | %s | %s | %s | %s | %s |" % (m["seed"], sm.get("what", ""), sm.get("needs", ""), "yes" if m.get("confirmed") else "NO", caught + (" - " + how if how else ""), blind))
 block = ["### 5.5 Seeded changes (written by sub-agents that saw only the property text; confirmed, then run against the checks)", "",
-         "Seven rounds (1-3: one change per property; 4, 5 and 6: two per property, `CNNdA`/`CNNeA`/`CNNfA` in v2 and `CNNdB`/`CNNeB`/`CNNfB` in the root module; round 6 came after the clause audit of 5.7; round 7, `CNNgA` (v2) / `CNNgB` (root), is sixteen changes for sixteen properties (v2 for C01-C05, C07, C09, C11, C14-C16, C19; root for C06, C08, C10, C13); rounds 2-7 were told the",
+         "Seven rounds (1-3: one change per property; 4, 5 and 6: two per property, `CNNdA`/`CNNeA`/`CNNfA` in v2 and `CNNdB`/`CNNeB`/`CNNfB` in the root module; round 6 came after the clause audit of 5.7; round 7, `CNNgA` (v2) / `CNNgB` (root), is twenty changes (v2 for C01-C05, C07, C09, C11, C13-C17, C19, C20; root for C06, C08, C10, C13, C18); rounds 2-7 were told the",
          "one-line descriptions of the earlier changes and asked for a different mechanism; round 3 had to change the root module only wherever",
          "the property names both generations). Each change",
          "compiles, passes the repository's own suite, and comes with a demonstration that fails with the change and passes without it",
@@ -38,7 +38,7 @@ block = ["### 5.5 Seeded changes (written by sub-agents that saw only the proper
          "create-only-only and entity-returning resources, unserialisable entities, large batches, bracket keys, broken tunnelled bodies, reused enum receivers,",
          "registration while serving, hashes across processes, optional fields with defaults, prefix-named fields, regeneration into a used directory, dependency manifests;",
          "round 6: a repeated member in a document, batch keys that are equal but encode differently, keys ordered differently by bytes and by UTF-16 units, a custom typeref key with a coarser equality,",
-         "one response object handed to overlapping requests; round 7: map keys containing the path separator, failing methods behind filters, values sharing a backing array, null-valued members in patch documents), once a vacuous condition in a check (C10 key-hash law guarded by a predicate that is true for equal values), three times the driver or harness build (a crash in every shard, a job that cannot drive channel operations, and a harness registry naming generated",
+         "one response object handed to overlapping requests; round 7: map keys containing the path separator, failing methods behind filters, values sharing a backing array, null-valued members in patch documents, user symbolic links in the output tree), once a vacuous condition in a check (C10 key-hash law guarded by a predicate that is true for equal values), three times the driver or harness build (a crash in every shard, a job that cannot drive channel operations, and a harness registry naming generated",
          "identifiers the changed generator no longer emits, were reported as inconclusive instead of a verdict), and twice a check that looked in the wrong place",
          "(C03 envelope returned early on a failing call; C08 checked the status of the second probe only). In round 7 the first strengthening of C08 and C10 did not take: C08's oracle",
          "kept using the unfiltered server although the case named the filtered one, and C10's aliasing helper expected a pointer where the harness holds a struct value; the re-run against the seeded change showed both (a",
